@@ -14,7 +14,7 @@ CLAIMED = {
         'note': 'trusted: Coq kernel + vm_compute; the hand-written models of matcher_interval/combinations/intervals/model_construction and of '
                 'filter/line_nums (Python iterators as lists, deque as list, IndexError as None), checked against the running code by correspondence, not '
                 'verified; contents matchers are oracles; the range-expression parser is exercised through the real parser (integer literals only); '
-                'string-source plumbing (freezing, tmp files) belongs to C14.',
+                'string-source plumbing (freezing, tmp files) belongs to C14. Source tie: the pure functions concerned are also TRANSLATED from the Python source on every run (harness/py2coq.py) and proved equal to the model functions for all inputs (Props/SrcTie_C13.v); the translator is then part of the trusted base of those theorems.',
         'technique': CORR,
     },
 }
@@ -27,7 +27,7 @@ CLAIMED['C02'] = {
             'function of the first failing step of the schedule, for every source, mode, keep flag; exit 0 iff (Normal mode) nothing failed; later steps cannot matter; '
             '"exit 65 iff only validation ran" is refuted by witness in both directions and replaced by the statements that do hold.',
     'note': 'trusted: Coq kernel + vm_compute; tabulating translator harness/c02.py; the documented table in Spec/C02.v was typed '
-            'in by hand from the property statement/README; INTERNAL_ERROR ending produced end to end through the recorded C08 finding (KeyError in cleanup).',
+            'in by hand from the property statement/README; INTERNAL_ERROR ending produced end to end through the recorded C08 finding (KeyError in cleanup). Source tie: the pure functions concerned are also TRANSLATED from the Python source on every run (harness/py2coq.py) and proved equal to the model functions for all inputs (Props/SrcTie_C02.v); the translator is then part of the trusted base of those theorems.',
     'technique': 'Coq finite-table proof + tables regenerated from running code (vm_compute obligations) + end-to-end differential runs',
 }
 CLAIMED['C16'] = {
@@ -38,7 +38,7 @@ CLAIMED['C16'] = {
             'predicate holds on the model and correspondence implies the property (all closed under the global context); pre-fix JUnit classification refuted. Regenerated '
             'reporter tables (C16_gen_reporters_match) + ~500 end-to-end suite runs per quick run tie model to code.',
     'note': 'trusted: Coq kernel + vm_compute; harness evaluates stat/glob (and quoting: a quoted name is literal) to build the model file system; hand-written model '
-            'Model/Suite.v checked against the running code by correspondence, not verified.',
+            'Model/Suite.v checked against the running code by correspondence, not verified. Source tie: the pure functions concerned are also TRANSLATED from the Python source on every run (harness/py2coq.py) and proved equal to the model functions for all inputs (Props/SrcTie_C16.v); the translator is then part of the trusted base of those theorems.',
     'technique': CORR + ' + regenerated reporter tables',
 }
 NOT_CLAIMED = {}
